@@ -330,6 +330,9 @@ func c20RunOnce(run c20RunFn, in any) (cls string, detail string) {
 		if c20HasPanicErr(err) {
 			return "err-panic", err.Error()
 		}
+		if errors.Is(err, compose.ErrExceedMaxSteps) {
+			return "steps", err.Error()
+		}
 		return "err", err.Error()
 	}
 	return "ok:" + c20DynName(out), ""
